@@ -7,8 +7,22 @@ clause of the mechanism is therefore run under every property that depends on it
 The clause, its truth and its evidence are the same; only the property it is reported under differs."""
 
 
+def _as(R, ctx, rid, rule, own_id):
+    """run a rule that reports under its own fixed id and re-label its obligations with the mechanism id."""
+    sub = type(R)(R.prop, R.tier)
+    rule(sub, ctx)
+    for k, v in sub.rules.items():
+        R.rules[rid] = v
+    for o in sub.obs:
+        o.rule = rid
+        R.obs.append(o)
+    for f in sub.floors:
+        R.floors.append((rid,) + tuple(f[1:]))
+    R.analysed_fns |= sub.analysed_fns
+
+
 def _rules():
-    from . import c01, c02, c03, c04, c05, c06, c08, c09_prims, c12, c13, c16, c17, preds, shared, wire_rules
+    from . import c01, c02, c03, c04, c05, c06, c07, c08, c09_prims, c12, c13, c16, c17, preds, shared, wire_rules
     return {
         "conflict": [
             lambda R, c, rid: c01.rule_f(R, c, rid),
@@ -96,6 +110,10 @@ def _rules():
         "text-units": [
             lambda R, c, rid: shared.text_units(R, c, rid),
         ],
+        "update-events": [
+            lambda R, c, rid: _as(R, c, rid, c07.rule_b, "C07.b"),
+            lambda R, c, rid: _as(R, c, rid, c07.rule_c, "C07.c"),
+        ],
         "identity": [
             lambda R, c, rid: shared.branch_identity(R, c, rid),
         ],
@@ -111,11 +129,11 @@ def _rules():
 
 # property -> mechanisms it depends on *in addition to* the clauses its own module already runs
 DEPENDS = {
-    "C01": ["squash", "splice", "partial", "flags", "stash-deletes", "lookup", "content", "export", "liveness", "block-wire", "merge", "state-vector", "identity", "weak-wire"],
+    "C01": ["squash", "splice", "partial", "flags", "stash-deletes", "lookup", "content", "export", "liveness", "block-wire", "merge", "state-vector", "identity", "weak-wire", "update-events"],
     "C02": ["stash-deletes", "lookup", "export", "block-wire", "merge", "state-vector"],
     "C03": ["splice", "conflict", "lookup", "content", "map-api", "text-units"],
-    "C04": ["splice", "dependency", "stash-deletes", "lookup", "content", "block-iter"],
-    "C05": ["conflict", "squash", "splice", "dependency", "map-api", "merge", "delete-set"],
+    "C04": ["splice", "dependency", "stash-deletes", "lookup", "content", "block-iter", "update-events"],
+    "C05": ["conflict", "squash", "splice", "dependency", "map-api", "merge", "delete-set", "update-events"],
     "C06": ["dependency", "delete-set", "slice", "partial", "lookup", "content", "merge", "state-vector"],
     "C07": ["delete-set", "slice", "partial", "export", "liveness", "block-wire", "state-vector"],
     "C08": ["slice", "delete-set", "partial", "block-wire", "state-vector"],
